@@ -164,6 +164,12 @@ def run(ck: Check, prog: Program) -> None:
                            f'`{norm(s.expr)}` is used as a truth value ({s.context}); {why}. Kinds here: {sorted(kinds)}',
                            [f'{m.module.rel}:{s.node.line} {norm(s.node.ast)[:110]}'])
     ck.require('SENT-TRUTH', 'conditions examined', n_conds, 25)
+    from .wire import ctor_precedence_problems as _cpp
+    _ci = prog.cls('pjrpc.common.exceptions.JsonRpcError')
+    _pp = _cpp(prog, _ci)
+    ck.ob('CTOR-PRECEDENCE', 'JsonRpcError.__init__: a given code / message wins over the class-level default', not _pp)
+    for _c, _m, _l in _pp:
+        ck.finding('CTOR-PRECEDENCE', _ci.qualname + '.__init__', _c, _ci.module.rel, _l, _m)
     # ---- REGISTRY + FWD-PARAM ------------------------------------------------------------------
     _registry(ck, prog)
     _fwd_param(ck, prog, 'error_cls')
